@@ -99,6 +99,7 @@ class Probe(Task):
         self.version = 1
         self.echo = False
         self.mapkind = None
+        self.nested = None
 
     def do(self, env, config):
         ctrl = vsched.CTRL if vsched.CTRL is not None else _NoController
@@ -119,6 +120,8 @@ class Probe(Task):
             }
         self.run.starts.append((self.name, seen))
         ctrl.sched_point('probe.end')
+        if self.nested is not None:
+            self.nested()         # this task schedules a graph of its own (see install_nested)
         self.returned = True
         kind = self.outcome
         update = expected_update(self.name, self.version)
@@ -348,6 +351,8 @@ def shape_labels(case):
         labs.append('tasks-return-their-whole-section')
     if case.get('mapkind'):
         labs.append('updates-are-mappings-but-not-dicts')
+    if case.get('nested') is not None:
+        labs.append('a-task-schedules-a-graph-of-its-own')
     if case.get('spurious'):
         labs.append('spurious-wakeups')
     if case.get('reloaded'):
@@ -416,10 +421,29 @@ def prepare(case, envmod):
     return run, tasks, hgraph, sgraph, env
 
 
-def make_body(case, envmod, qmod, hgraph, sgraph, env, backend_box, passthrough=()):
+def install_nested(case, tasks, envmod, smod):
+    """``case['nested']`` = index of a task that, while it runs, schedules a two-task graph of its
+    own with a Scheduler created WITHOUT a back-end (the documented default); the outer call then
+    uses the default back-end too.  Two schedule() calls overlap in time: each has its own graph
+    and environment and must come back."""
+    if case.get('nested') is None:
+        return
+
+    def inner():
+        one, two = Probe('inner0', 'done', RunState()), Probe('inner1', 'done', RunState())
+        graph = DepGraph()
+        graph.add_dependency(two, on=one)
+        smod.Scheduler(hard_graph=graph).schedule(env=envmod.Env())
+    tasks[int(case['nested']) % len(tasks)].nested = inner
+
+
+def make_body(case, envmod, qmod, hgraph, sgraph, env, backend_box, passthrough=(), smod=None):
     """The call sequence under test as a closure: [prelude on the same back-end object,]
     Scheduler(...).schedule(env) [, again].  ``passthrough``: exception types of the harness
-    that the prelude must not swallow."""
+    that the prelude must not swallow.  ``smod``: the module providing Scheduler (default: the
+    real one)."""
+    sched_cls = smod.Scheduler if smod is not None else Scheduler
+
     def body():
         backend = qmod.QueueScheduling(case['workers'])
         backend_box['backend'] = backend
@@ -440,7 +464,11 @@ def make_body(case, envmod, qmod, hgraph, sgraph, env, backend_box, passthrough=
                 raise
             except Exception as exc:      # e.g. AssertionError for FAILED initial entries
                 backend_box['prelude_raised'] = repr(exc)
-        sched = Scheduler(hard_graph=hgraph, soft_graph=sgraph, backend=backend)
+        if case.get('nested') is not None:
+            sched = sched_cls(hard_graph=hgraph, soft_graph=sgraph)      # default back-end
+            backend_box['backend'] = sched.backend
+        else:
+            sched = sched_cls(hard_graph=hgraph, soft_graph=sgraph, backend=backend)
         res = sched.schedule(env=env)
         for _ in range(int(case.get('again') or 0)):
             # the same Scheduler (and back-end) object is used again on the environment
@@ -455,8 +483,10 @@ def execute(case, sched_spec=None, max_steps=20000):
     envmod, qmod = vsched.modules()
     run, tasks, hgraph, sgraph, env = prepare(case, envmod)
     backend_box = {}
+    smod = vsched.scheduler_module() if case.get('nested') is not None else None
+    install_nested(case, tasks, envmod, smod)
     body = make_body(case, envmod, qmod, hgraph, sgraph, env, backend_box,
-                     passthrough=(vsched.Abort, vsched.HarnessGap))
+                     passthrough=(vsched.Abort, vsched.HarnessGap), smod=smod)
 
     schedule = make_schedule(sched_spec or case['sched'])
     max_steps = max(max_steps, 60 * case['n'])      # wide graphs need more scheduling points
@@ -560,6 +590,8 @@ def extras(draw, n):
         extra['echo'] = True       # tasks return their whole own section (see Probe.do)
     elif draw(st.integers(0, 5)) == 0:
         extra['mapkind'] = draw(st.sampled_from(['proxy', 'userdict', 'chainmap']))
+    if draw(st.integers(0, 11)) == 5:
+        extra['nested'] = draw(st.integers(0, n - 1))     # see install_nested
     if draw(st.integers(0, 7)) == 0:
         # Condition.wait may return without a notification after that many scheduling points
         extra['spurious'] = draw(st.sampled_from([2, 5, 15, 40]))
